@@ -503,6 +503,11 @@ func (w *World) resolveMetaCas(op Op) uint64 {
 		if v < 0x10000 {
 			v = uint64(time.Now().UnixNano())
 		}
+	case "future":
+		// ahead of the local clock (another cluster's clock runs fast): later local writes to the
+		// key get a smaller CAS than the one stored
+		v = uint64(time.Now().Add(time.Hour).UnixNano()) | 0x3039
+		v += 2 * uint64(atomic.AddInt64(&metaSerial, 1)%1000)
 	case "below":
 		v = 1000
 	case "between":
